@@ -92,6 +92,14 @@ type EchPlan struct {
 	MaxConc   int                    `json:"max_concurrency,omitempty"`
 	DelayNs   int64                  `json:"concurrency_delay_ns,omitempty"`
 	TimeoutNs int64                  `json:"timeout_ns,omitempty"`
+
+	// ViaTransport: the dial is reached the way an http.Client reaches it,
+	// through ech.Transport (RoundTrip of https://host[:port]/ with
+	// Transport.TLSConfig = the caller's config, Transport.Dialer carrying the
+	// options above). One host; no attempt succeeds (the scripted DialFunc has
+	// no *tls.Conn to give), so the request fails after the last attempt.
+	ViaTransport bool `json:"via_transport,omitempty"`
+	CallerNoALPN bool `json:"caller_no_alpn,omitempty"` // caller's config has no NextProtos
 }
 
 func recList(id int) []byte    { return echList(id, fmt.Sprintf("front%d.example", id)) }
@@ -539,6 +547,9 @@ func executeEch(t *testing.T, prop string, seed uint64, p *EchPlan) *core.Result
 	var caller, before *tls.Config
 	if !p.CallerNil {
 		caller = &tls.Config{ServerName: p.CallerServerName, NextProtos: []string{"h2", "http/1.1"}, MinVersion: tls.VersionTLS13}
+		if p.CallerNoALPN {
+			caller.NextProtos = nil
+		}
 		if p.CallerECH > 0 {
 			caller.EncryptedClientHelloConfigList = callerList(p.CallerECH)
 		}
@@ -568,9 +579,45 @@ func executeEch(t *testing.T, prop string, seed uint64, p *EchPlan) *core.Result
 			MaxConcurrency: p.MaxConc, ConcurrencyDelay: time.Duration(p.DelayNs), Timeout: time.Duration(p.TimeoutNs), DialFunc: es.dialFunc(p)}
 		ctx, cancel := context.WithCancel(context.Background())
 		defer cancel()
-		_, panicS, panicAt = core.Guard(func() {
-			retConn, retErr = d.Dial(ctx, p.Network, addr, caller)
-		})
+		if p.ViaTransport {
+			inner := es.dialFunc(p)
+			tr := ech.NewTransport()
+			tr.Resolver = resolver
+			tr.TLSConfig = caller
+			tr.Dialer.RequireECH, tr.Dialer.PublicName = p.RequireECH, p.PublicName
+			tr.Dialer.MaxConcurrency, tr.Dialer.ConcurrencyDelay, tr.Dialer.Timeout = p.MaxConc, time.Duration(p.DelayNs), time.Duration(p.TimeoutNs)
+			tr.Dialer.DialFunc = func(ctx context.Context, network, addr string, tc *tls.Config) (*tls.Conn, error) {
+				c, err := inner(ctx, network, addr, tc)
+				if c != nil {
+					es.mu.Lock()
+					es.stub = append(es.stub, "plan error: an attempt of a via-Transport plan succeeds")
+					es.mu.Unlock()
+					c.Close()
+					return nil, errors.New("harness: no *tls.Conn to give")
+				}
+				return nil, err
+			}
+			_, panicS, panicAt = core.Guard(func() {
+				req, err := http.NewRequestWithContext(ctx, "GET", "https://"+strings.TrimSpace(addr)+"/", nil)
+				if err != nil {
+					res.Harness = "NewRequest: " + err.Error()
+					return
+				}
+				var resp *http.Response
+				resp, retErr = tr.RoundTrip(req)
+				if resp != nil {
+					es.mu.Lock()
+					es.stub = append(es.stub, "a response although no attempt succeeds")
+					es.mu.Unlock()
+					resp.Body.Close()
+				}
+			})
+			tr.HTTPTransport.CloseIdleConnections()
+		} else {
+			_, panicS, panicAt = core.Guard(func() {
+				retConn, retErr = d.Dial(ctx, p.Network, addr, caller)
+			})
+		}
 		retSeq = es.rs.seq.Add(1)
 		retT = int64(time.Since(es.rs.t0))
 		if rest := horizon - time.Since(es.rs.t0); rest > 0 {
@@ -740,7 +787,10 @@ func judgeEch(res *core.Result, prop string, p *EchPlan, es *echState, caller, b
 	}
 	sort.Strings(addrs)
 
-	sigParts := []string{fmt.Sprintf("req=%v pn=%v cech=%v csn=%v nil=%v hosts=%d", p.RequireECH, p.PublicName != "", p.CallerECH > 0, p.CallerServerName != "", p.CallerNil, len(p.Hosts))}
+	sigParts := []string{fmt.Sprintf("req=%v pn=%v cech=%v csn=%v nil=%v hosts=%d tr=%v", p.RequireECH, p.PublicName != "", p.CallerECH > 0, p.CallerServerName != "", p.CallerNil, len(p.Hosts), p.ViaTransport)}
+	if p.ViaTransport {
+		res.Probe("via_transport")
+	}
 	var canon []string
 	refusalPossible := false
 
